@@ -145,6 +145,14 @@ CHECKS = {
             'exactly nchans/nints entries; the in-session Waterfall must carry the same header/data.',
             'whole-frame saves/loads only; HDF5 only for >= 3 rows and channels (blimpy reader limitation); 64 ulp frequency and 5 us start-time tolerances',
             'DESIGN.md 3/C03'),
+    'C11': ('exploration',
+            'Hypothesis generated noise histories with exact bookkeeping oracles (returned == added, table membership/common index, first-noise statistics, SNR inverse) and statistical oracles at analytically derived 6.5-sigma bands on 32768-sample draws',
+            'Generated frames with df*dt around every integer 1..10 and histories of add_noise / add_noise_from_obs (own and shipped tables, share_index on/off) / zero_data: '
+            'returned array == what was added, floors respected and attained, first noise sets the estimates, table draws are members with a common index when shared, '
+            'intensity/snr inverse; chi-squared mean/variance/k-hat, Gaussian mean/std and the sigma-clipped re-estimate are tested statistically; stream and array '
+            'background deviations add in quadrature (exact bookkeeping + sampled).',
+            'distributional clauses are decided statistically (false-alarm < 1e-6 per run); own tables keep means above deviations',
+            'DESIGN.md 3/C11'),
 }
 
 ALL = [f'C{i:02d}' for i in range(1, 21)]
